@@ -237,6 +237,18 @@ func (e *C05) mkCall(r *core.Rng, round int) *c05call {
 		if fn == 5 && im.size != 64 {
 			fn = 4
 		}
+		if r.Chance(1, 8) {
+			// an image of the wrong shape (one side right): every hashing entry point returns its
+			// size error, none may bring the process down
+			w, h := r.Pick(64, 64, 128, 256), r.Pick(64, 128, 32)
+			if w == h {
+				h = 2 * w
+			}
+			odd := image.NewRGBA(image.Rect(0, 0, w, h))
+			copy(odd.Pix, r.Bytes(len(odd.Pix)))
+			fn = r.Intn(6)
+			im = c05img{img: odd, size: w, name: fmt.Sprintf("odd-%dx%d-%x", w, h, r.U32())}
+		}
 		return &c05call{key: names[fn] + "|" + im.name, class: "hash:" + names[fn], run: func(y func()) string {
 			y()
 			switch fn {
